@@ -82,7 +82,7 @@ func init() {
 		"DESIGN.md §5 C07",
 		[]string{"whether an empty upper list 'actually overrides' a $required list entry (the list marker is shown to be removed only by a child list; the map-valued marker follows the ordinary merge table, C01)"},
 		nil,
-		ruleOutputGate("C07"), ruleValidate("C07"), ruleMarshalRoute, ruleC07Encode("C07.encode"), ruleC07Required, ruleStripMarker("C07.strip"), ruleMergeSourcesPrivate("C07.indep"), ruleC01List, ruleDroppedErrors)
+		ruleOutputGate("C07"), ruleValidate("C07"), ruleMarshalRoute, ruleC07Encode("C07.encode"), ruleC07Required, ruleStripMarker("C07.strip"), ruleMergeSourcesPrivate("C07.indep"), ruleC01List, ruleC01Kind, ruleDroppedErrors)
 
 	mk("C08", "Every invocation terminates with complete output or a reported error",
 		"panic-site audit over SSA (unchecked type assertions, compiler-unproven bounds checks matched to discharge patterns, explicit panics, division, nil-map writes), per-call-site classification of every cycle of a closure-aware call graph (depth-guarded / visited-guarded / structural on acyclic data), dropped-error audit, preconditions of indexed library calls (utf8string.At under a RuneCount guard), path summaries of the mains (failed step => stderr + non-zero exit, stdout written last)",
@@ -162,7 +162,7 @@ func init() {
 		"DESIGN.md §5 C17",
 		[]string{"nothing further: idempotence follows from the table"},
 		nil,
-		ruleC17Table, ruleMarkerVocabulary("C17.marker", map[string][]string{"cmd/bklr": {"$required"}}), ruleValidate("C17"), ruleStripMarker("C17.strip"), ruleC17Main, ruleTypedNil("C17.typednil"), ruleC03, ruleC01List)
+		ruleC17Table, ruleMarkerVocabulary("C17.marker", map[string][]string{"cmd/bklr": {"$required"}}), ruleValidate("C17"), ruleStripMarker("C17.strip"), ruleC17Main, ruleTypedNil("C17.typednil"), ruleC03, ruleC01List, ruleC01Kind)
 
 	mk("C18", "With a root directory set, nothing outside it is ever read",
 		"who-may-call census of file-content APIs (only (*os.Root).Open on the parser's root and stdin), frozen list of metadata probes, writer census and path summary of SetRoot (roots only narrow), data-flow of the path handed to root.Open, dominance of SetRoot over loading in cmd/bkl.main",
